@@ -31,6 +31,7 @@ THEOREMS = [
     "Qentem.Props.C09.strToNum_offset_bounds",
     "Qentem.Props.C09.bigint_steps_exact",
     "Qentem.Props.C09.overflow_reported_partial",
+    "Qentem.Props.C09.real_within_one_ulp_pos",
 ]
 OPEN = ["Qentem.Props.C09.real_within_one_ulp (stated; searched by the exact-Rat oracle on the C++ results)",
         "Qentem.Props.C09.overflow_reported (stated; searched by the oracle; the repaired exponent test is proved in overflow_reported_partial)"]
